@@ -375,11 +375,11 @@ def bc_run(ctx, res, pid, mon, profiles):
     run_corpus(ctx, res, pid, mon)
     workers = ctx.scale(min(4, os.cpu_count() or 1), min(16, os.cpu_count() or 1))
     nshards = ctx.scale(8, 64)
-    per = ctx.scale(4000, 40000)
+    per = ctx.scale(4000, 30000)
     base = ctx.rng.randrange(1 << 30)
     shards = [(base + i, per, profiles, None, None, (mon,)) for i in range(nshards)]
     merge(ctx, res, C.run_shards(ctx, shards, workers), pid, mon)
-    ex = C.exhaustive(ctx.scale(7, 9), C.ALPHABET, workers, ctx.scale(30, 420))
+    ex = C.exhaustive(ctx.scale(6, 8), C.ALPHABET, workers, ctx.scale(30, 300))
     ex2 = C.exhaustive(ctx.scale(8, 12), C.SMALL_ALPHABET, workers, ctx.scale(15, 200))
     for e in (ex, ex2):
         res.evaluations += e["transitions"]
